@@ -176,6 +176,14 @@ pub struct C11Mon {
     /// an acceptable token offer arrived while the station already held a token (two tokens on the
     /// bus, the peer's fault): the station may use it after it has passed its own
     pub extra_offer: bool,
+    /// a decodable telegram was delivered while the station held the token (it does not read then): it is
+    /// still in the receive buffer and will be processed after the station's next transmission
+    pub stale_pending: bool,
+    /// the station's last transmission was a request that expects a reply: it is reading
+    pub awaiting_reply: bool,
+    /// the last few token passes of the peer (sa, da): a witnessed pass that skips X legitimately removes X
+    /// from the station's ring view
+    pub recent_peer_tokens: Vec<(u8, u8)>,
 }
 
 #[derive(Clone)]
@@ -217,6 +225,10 @@ pub struct C12RMon {
     pub ever_identical: bool,
     pub claimed: bool,
     pub answered: bool,
+    /// the witnessed passes did not form a chain (a pass by a station that was not given the token and is
+    /// not repeating its own pass): what "a rotation" is is undefined until two clean identical rotations
+    /// have been seen again; the 'ready' judgement is suspended meanwhile
+    pub suspended: bool,
 }
 
 impl W2State {
@@ -403,7 +415,7 @@ impl W2State {
             2 => {
                 if req.sa() != Some(ps_before) {
                     self.report("c12.reply.ready_to_non_predecessor", format!("reports 'ready' to #{:?} but its registered predecessor is #{ps_before}", req.sa()));
-                } else if !self.c12r.ever_identical && !self.c12r.claimed {
+                } else if !self.c12r.ever_identical && !self.c12r.claimed && !self.c12r.suspended {
                     // classify the known case: one full rotation followed by a repeated wrap-around pass
                     let single_wrap = self.c12r.cur_rotation.is_empty() && self.c12r.last_token.map(|(sa, da)| da <= sa).unwrap_or(false);
                     let sig = if single_wrap { "c12.reply.ready_after_one_rotation_plus_repeated_wraparound_pass" } else { "c12.reply.ready_before_two_identical_rotations" };
@@ -456,6 +468,17 @@ impl W2State {
                         // after a failed pass) belongs to the same rotation; rotations are compared by the
                         // sequence of passing stations (the LAS is built from the senders)
                         let is_retry = sa != da && self.c12r.last_token.map(|t| t.0) == Some(*sa);
+                        // chain continuity: the passing station is the one that was given the token (or it
+                        // repeats / re-tries its own pass)
+                        if let Some((lsa, lda)) = self.c12r.last_token {
+                            if *sa != lda && *sa != lsa && *sa <= 125 && *da <= 125 {
+                                self.c12r.suspended = true;
+                                self.c12r.prev_rotation = None;
+                                self.c12r.cur_rotation.clear();
+                                self.c12r.identical = 0;
+                                ctx().witness("c12_reply_chain_break_suspends_ready_judgement");
+                            }
+                        }
                         self.c12r.last_token = Some((*sa, *da));
                         if *da <= 125 && *sa <= 125 && !is_retry {
                             self.c12r.cur_rotation.push((*sa, *da));
@@ -464,6 +487,7 @@ impl W2State {
                                 let senders = |r: &Vec<(u8, u8)>| r.iter().map(|x| x.0).collect::<Vec<u8>>();
                                 if self.c12r.prev_rotation.as_ref().map(senders) == Some(senders(&cur)) {
                                     self.c12r.ever_identical = true;
+                                    self.c12r.suspended = false;
                                 }
                                 if self.c12r.prev_rotation.as_ref() == Some(&cur) {
                                     self.c12r.identical += 1;
@@ -644,15 +668,26 @@ impl W2State {
                     }
                 }
             }
+            if self.c11.holder && in_ring && !self.c11.awaiting_reply {
+                self.c11.stale_pending = true;
+            }
+            self.c11.awaiting_reply = false;
             if let rc::RFrame::Token { da, sa } = f {
+                self.c11.recent_peer_tokens.push((*sa, *da));
+                if self.c11.recent_peer_tokens.len() > 4 {
+                    self.c11.recent_peer_tokens.remove(0);
+                }
                 if *da == ts && *sa != ts && in_ring {
+                    if self.c11.holder {
+                        // delivered while the station holds a token: it is processed later, when the
+                        // registered predecessor may be a different one — whoever sent it, the peer has put a
+                        // second token on the bus
+                        self.c11.extra_offer = true;
+                    }
                     if *sa == ps {
-                        if self.c11.holder {
-                            self.c11.extra_offer = true;
-                        }
                         self.c11.holder = true;
                         self.c11.holder_since = end;
-                    } else if *sa <= 125 {
+                    } else {
                         let mut found = false;
                         for o in self.c11.offers.iter_mut() {
                             if o.0 == *sa {
@@ -694,6 +729,11 @@ impl W2State {
             _ => return,
         };
         self.c11_expire_holder(tx.start);
+        self.c11.awaiting_reply = frame.is_request() && frame.req_expects_reply();
+        if self.c11.awaiting_reply {
+            // whatever is in the receive buffer is consumed as (or instead of) the reply
+            self.c11.stale_pending = false;
+        }
         // a telegram whose first byte was not complete when the station started cannot have been noticed
         let silence = if self.c11.last_activity_start + 11 * BIT > tx.start { tx.start - self.c11.prev_activity_end } else { tx.start - self.c11.last_activity_end };
         if !frame.is_response() {
@@ -711,7 +751,10 @@ impl W2State {
             if !justified && self.c11.extra_offer && !clean_repeat {
                 // it uses the second token it was given while it held the first
                 self.c11.extra_offer = false;
-                self.c11.pass = None;
+                // (a pass whose supervision is not judged stays unjudged)
+                if !matches!(self.c11.pass, Some((_, 255, _, _))) {
+                    self.c11.pass = None;
+                }
                 justified = true;
             }
             if !justified {
@@ -785,7 +828,10 @@ impl W2State {
                     self.c11.holder = false;
                     // a pass that collides with a transmission in progress: the tail of that transmission reaches
                     // the station as undecodable bytes after its pass ("something was heard")
-                    let fuzzy = (matches!(self.c11.pass, Some((_, 255, _, _))) && !was_holder) || tx.overlaps_prev;
+                    // … and so does a telegram that was delivered while the station was not reading: it is
+                    // processed right after this pass
+                    let fuzzy = (matches!(self.c11.pass, Some((_, 255, _, _))) && !was_holder) || tx.overlaps_prev || self.c11.stale_pending;
+                    self.c11.stale_pending = false;
                     self.c11.pass = Some((da, if fuzzy { 255 } else { 1 }, tx.end, false));
                     self.c11.heard_from_successor = None;
                 }
@@ -810,7 +856,10 @@ impl W2State {
         }
         if let Some(x) = self.c11.heard_from_successor {
             let still = self.station.inspect_token_ring().iter_active_stations().any(|a| a == x);
-            if !still {
+            // a witnessed pass sa -> da of another station that skips X (X strictly between sa and da,
+            // cyclically) removes X from the ring view for a good reason
+            let skipped = self.c11.recent_peer_tokens.iter().any(|(sa, da)| if da > sa { x > *sa && x < *da } else { x > *sa || x < *da });
+            if !still && !skipped {
                 self.report("c11.a3.heard_successor_removed", format!("#{x} was heard after the token pass but is no longer in the LAS"));
             }
             self.c11.heard_from_successor = None;
